@@ -482,3 +482,224 @@ def fold_constants(rel: str, extra: dict | None = None) -> dict[str, float]:
             except (KeyError, ZeroDivisionError, TypeError):
                 pass
     return env
+
+
+# ---------------------------------------------------------------------------
+# Open translation: everything that has no algebraic meaning becomes an
+# uninterpreted symbol/function, so two source expressions can be compared
+# modulo arithmetic identities, renaming of locals (they are substituted by
+# their definitions) and reordering of commutative operands.
+# ---------------------------------------------------------------------------
+
+
+class OpenPyTranslator(PyTranslator):
+    """Used for *formula sites* inside larger functions.  `summary(fn)` walks the
+    statements once in order; a `for` body is analysed once for a generic
+    iteration (the loop variable is a symbol — nothing is unrolled), `try` bodies
+    are followed, `if` bodies are followed when `follow_if` is set (both arms write
+    into the same environment; a name assigned in both arms differently becomes
+    ambiguous and is dropped).  Recorded: final definitions of names/attributes,
+    and the arguments of every `<x>.append(...)`."""
+
+    def __init__(self, names=None, where="", rename: dict | None = None, follow_if=True):
+        super().__init__(names or {}, where=where)
+        self.appends: dict[str, list] = {}
+        self.assigned: dict[str, list] = {}
+        self.rename = rename or {}
+        self.follow_if = follow_if
+
+    def sym(self, text: str):
+        text = self.rename.get(text, text)
+        return sp.Symbol(text)
+
+    def expr(self, n, env):
+        if isinstance(n, ast.Name):
+            if n.id in env:
+                return env[n.id]
+            if n.id in self.names:
+                return self.names[n.id]
+            return self.sym(n.id)
+        if isinstance(n, ast.Attribute):
+            t = core.src(n)
+            if t in env:
+                return env[t]
+            if t in self.names:
+                return self.names[t]
+            if t in ("np.pi", "numpy.pi", "math.pi"):
+                return sp.pi
+            base = self.expr(n.value, env)
+            if isinstance(base, sp.Symbol):
+                return self.sym(f"{base.name}.{n.attr}")
+            return sp.Function(f".{n.attr}")(base)
+        if isinstance(n, ast.Subscript):
+            t = core.src(n)
+            if t in env:
+                return env[t]
+            base = self.expr(n.value, env)
+            idx = n.slice
+            elts = idx.elts if isinstance(idx, ast.Tuple) else [idx]
+            args = []
+            for e in elts:
+                if isinstance(e, ast.Slice):
+                    parts = [self.expr(p, env) if p is not None else sp.Symbol("_") for p in (e.lower, e.upper, e.step)]
+                    args.append(sp.Function("slice")(*parts))
+                else:
+                    args.append(self.expr(e, env))
+            name = base.name if isinstance(base, sp.Symbol) else str(base)
+            return sp.Function(f"{name}[]")(*args)
+        if isinstance(n, (ast.List, ast.Tuple)):
+            return sp.Tuple(*[self.expr(e, env) for e in n.elts])
+        if isinstance(n, ast.Constant) and isinstance(n.value, str):
+            return sp.Symbol(repr(n.value))
+        if isinstance(n, ast.Constant) and n.value is None:
+            return sp.Symbol("None")
+        if isinstance(n, ast.Constant) and isinstance(n.value, bool):
+            return sp.Symbol(str(n.value))
+        if isinstance(n, ast.Call):
+            fname = core.src(n.func)
+            base = fname.split(".")[-1]
+            if (fname.split(".")[0] in ("np", "numpy", "math") or fname in FUNCS) and base in FUNCS and len(n.args) == 1 and not n.keywords:
+                return self.alg.func(base, self.expr(n.args[0], env))
+            if isinstance(n.func, ast.Attribute) and not fname.startswith(("np.", "numpy.", "math.")):
+                recv = self.expr(n.func.value, env)
+                args = [recv] + [self.expr(a, env) for a in n.args if not isinstance(a, ast.Starred)]
+                fn_name = f".{n.func.attr}()"
+            else:
+                args = [self.expr(a, env) for a in n.args if not isinstance(a, ast.Starred)]
+                fn_name = fname
+            for kw in n.keywords:
+                if kw.arg is not None:
+                    args.append(sp.Function(f"kw:{kw.arg}")(self.expr(kw.value, env)))
+            return sp.Function(fn_name)(*args)
+        if isinstance(n, ast.Compare) and len(n.ops) == 1:
+            return sp.Function(f"cmp:{type(n.ops[0]).__name__}")(self.expr(n.left, env), self.expr(n.comparators[0], env))
+        if isinstance(n, ast.BoolOp):
+            return sp.Function(f"bool:{type(n.op).__name__}")(*[self.expr(v, env) for v in n.values])
+        if isinstance(n, ast.UnaryOp) and isinstance(n.op, ast.Not):
+            return sp.Function("not")(self.expr(n.operand, env))
+        if isinstance(n, ast.IfExp):
+            return sp.Function("ifexp")(self.expr(n.test, env), self.expr(n.body, env), self.expr(n.orelse, env))
+        if isinstance(n, ast.BinOp) and isinstance(n.op, (ast.Mod, ast.MatMult, ast.BitAnd, ast.BitOr)):
+            return sp.Function(f"op:{type(n.op).__name__}")(self.expr(n.left, env), self.expr(n.right, env))
+        if isinstance(n, (ast.ListComp, ast.GeneratorExp)) and len(n.generators) == 1 and not n.generators[0].ifs:
+            g = n.generators[0]
+            env2 = dict(env)
+            it = g.iter
+            if isinstance(it, ast.Call) and core.src(it.func) == "zip" and isinstance(g.target, ast.Tuple) and len(it.args) == len(g.target.elts):
+                for t, a in zip(g.target.elts, it.args):
+                    if isinstance(t, ast.Name):
+                        env2[t.id] = sp.Function("each")(self.expr(a, env))
+            elif isinstance(g.target, ast.Name):
+                env2[g.target.id] = sp.Function("each")(self.expr(it, env))
+            else:
+                return sp.Symbol("<" + core.norm(core.src(n), 80) + ">")
+            return sp.Function("listof")(self.expr(n.elt, env2))
+        if isinstance(n, (ast.ListComp, ast.GeneratorExp, ast.Lambda, ast.JoinedStr, ast.Dict, ast.Starred, ast.DictComp, ast.SetComp)):
+            return sp.Symbol("<" + core.norm(core.src(n), 80) + ">")
+        return super().expr(n, env)
+
+    def summary(self, fn_or_stmts, env: dict | None = None) -> dict:
+        env = dict(env or {})
+        stmts = fn_or_stmts.body if hasattr(fn_or_stmts, "body") else fn_or_stmts
+        self._walk(stmts, env)
+        return env
+
+    def _walk(self, stmts, env):
+        for s in stmts:
+            try:
+                self._stmt(s, env)
+            except AnalysisError:
+                continue  # a statement without algebraic meaning defines nothing we rely on
+
+    def _bind(self, target, value, env):
+        if isinstance(target, ast.Name):
+            env[target.id] = value
+            self.assigned.setdefault(target.id, []).append(value)
+        elif isinstance(target, (ast.Attribute, ast.Subscript)):
+            key = core.src(target)
+            env[key] = value
+            self.assigned.setdefault(key, []).append(value)
+        elif isinstance(target, (ast.Tuple, ast.List)):
+            for k, t in enumerate(target.elts):
+                if isinstance(value, sp.Tuple) and len(value) == len(target.elts):
+                    self._bind(t, value[k], env)
+                else:
+                    self._bind(t, sp.Function(f"item{k}")(value), env)
+
+    def _stmt(self, s, env):
+        if isinstance(s, ast.Assign):
+            v = self.expr(s.value, env)
+            for t in s.targets:
+                self._bind(t, v, env)
+        elif isinstance(s, ast.AnnAssign) and s.value is not None:
+            self._bind(s.target, self.expr(s.value, env), env)
+        elif isinstance(s, ast.AugAssign):
+            cur = self.expr(s.target, env)
+            v = self.expr(s.value, env)
+            new = super().expr(ast.BinOp(left=ast.Name(id="__cur"), op=s.op, right=ast.Name(id="__v")), {"__cur": cur, "__v": v}) if isinstance(s.op, (ast.Add, ast.Sub, ast.Mult, ast.Div, ast.Pow)) else sp.Function(f"aug:{type(s.op).__name__}")(cur, v)
+            self._bind(s.target, new, env)
+            self.appends.setdefault("aug:" + core.src(s.target), []).append((type(s.op).__name__, v))
+        elif isinstance(s, ast.Expr) and isinstance(s.value, ast.Call):
+            c = s.value
+            if isinstance(c.func, ast.Attribute) and c.func.attr == "append" and len(c.args) == 1:
+                self.appends.setdefault(core.src(c.func.value), []).append(self.expr(c.args[0], env))
+        elif isinstance(s, ast.For):
+            tv = s.target
+            if isinstance(tv, ast.Name):
+                env[tv.id] = self.sym(tv.id)
+            elif isinstance(tv, ast.Tuple):
+                for e in tv.elts:
+                    if isinstance(e, ast.Name):
+                        env[e.id] = self.sym(e.id)
+            self._walk(s.body, env)
+        elif isinstance(s, ast.While):
+            self._walk(s.body, env)
+        elif isinstance(s, ast.With):
+            self._walk(s.body, env)
+        elif isinstance(s, ast.Try):
+            self._walk(s.body, env)
+            self._walk(s.orelse, env)
+            self._walk(s.finalbody, env)
+        elif isinstance(s, ast.If):
+            if self.follow_if:
+                e1, e2 = dict(env), dict(env)
+                self._walk(s.body, e1)
+                self._walk(s.orelse, e2)
+                for k in set(e1) | set(e2):
+                    a, b = e1.get(k), e2.get(k)
+                    if a is not None and b is not None and a == b:
+                        env[k] = a
+                    elif k in env and (a != env.get(k)) != (b != env.get(k)):
+                        # assigned in exactly one arm: keep the assigned value (the site rules
+                        # look at what a formula is *when* it is computed)
+                        env[k] = a if a != env.get(k) else b
+                    elif k not in env and (a is None) != (b is None):
+                        env[k] = a if a is not None else b
+                    else:
+                        env.pop(k, None)
+        elif isinstance(s, ast.Return) and s.value is not None:
+            self.appends.setdefault("<return>", []).append(self.expr(s.value, env))
+
+
+def open_expr(text: str, rename: dict | None = None, names: dict | None = None):
+    """Translate expected-formula text with the same open semantics."""
+    tr = OpenPyTranslator(names or {}, rename=rename, where="expected")
+    return tr.expr(ast.parse(text, mode="eval").body, {})
+
+
+def same(a, b) -> tuple[bool, str]:
+    """Are two open expressions identical modulo arithmetic?"""
+    if a == b:
+        return True, "syntactic"
+    try:
+        d = sp.simplify(a - b)
+    except Exception as e:
+        return False, f"not comparable: {e}"
+    if d == 0:
+        return True, "simplify"
+    try:
+        if sp.cancel(sp.together(sp.expand(a - b))) == 0:
+            return True, "cancel"
+    except Exception:
+        pass
+    return False, core.norm(str(d), 200)
